@@ -12,8 +12,17 @@ let leaf_of s =
       let d = if dims = "-" then [] else List.map z_of_string (String.split_on_char '.' dims) in
       ({ l_group = z_of_string g; l_size = z_of_string sz; l_arr = d }, z_of_string o)
   | _ -> failwith "leaf"
+(* a field segment may carry a repeat suffix "g:sz:off:dims*K": K members at off, off+sz, ... *)
+let leaves_of s =
+  match String.index_opt s '*' with
+  | None -> [leaf_of s]
+  | Some k ->
+      let (l, o) = leaf_of (String.sub s 0 k) in
+      let n = int_of_string (String.sub s (k + 1) (String.length s - k - 1)) in
+      let o0 = int_of_z o and sz = int_of_z l.l_size in
+      List.init n (fun i -> (l, z_of_int (o0 + i * sz)))
 let ti_of size fields =
-  { ti_fields = List.map leaf_of (String.split_on_char '/' fields); ti_size = z_of_string size; ti_flags = Z0 }
+  { ti_fields = List.concat_map leaves_of (String.split_on_char '/' fields); ti_size = z_of_string size; ti_flags = Z0 }
 let fx_of s = { fx_name = s.[0] = '1'; fx_arrws = s.[1] = '1'; fx_null = s.[2] = '1' }
 let string_of_res = function
   | Ok _ -> "Accept" | Err -> "Reject" | OOB -> "OOB" | NullDeref -> "NullDeref"
@@ -38,7 +47,13 @@ let tok_of s =
             | None -> failwith "item")
   | 'p' -> TPad (digits_of rest)
   | _ -> failwith "tok"
-let toks_of s = if s = "-" then [] else List.map tok_of (String.split_on_char ',' s)
+(* a token may carry a repeat suffix "tok*n" (n copies) *)
+let toks1_of s =
+  match String.index_opt s '*' with
+  | None -> [tok_of s]
+  | Some k -> let t = tok_of (String.sub s 0 k) in
+              List.init (int_of_string (String.sub s (k + 1) (String.length s - k - 1))) (fun _ -> t)
+let toks_of s = if s = "-" then [] else List.concat_map toks1_of (String.split_on_char ',' s)
 let kind_str = function KChar -> "H" | KInt -> "I" | KUInt -> "U" | KReal -> "R" | KComplex -> "C"
 let spec_out f size fields isz =
   let ti = ti_of size fields in
@@ -51,7 +66,28 @@ let spec_out f size fields isz =
                   kind_str k ^ ":" ^ string_of_z sz ^ ":" ^ string_of_z o) items) in
         (if s = "" then "-" else s) ^ " " ^ string_of_z e in
   r ^ " " ^ a ^ " " ^ l
+(* compact form for long layouts: <sha-free summary> = item count, end offset, first and last item *)
+let specq_out f size fields isz =
+  let ti = ti_of size fields in
+  let a = if spec_accept f ti (z_of_string isz) then "1" else "0" in
+  let it ((k, sz), o) = kind_str k ^ ":" ^ string_of_z sz ^ ":" ^ string_of_z o in
+  let l = match layout (fmt_toks f) MNative Z0 with
+    | None -> "None"
+    | Some (items, e) ->
+        let n = List.length items in
+        string_of_int n ^ " " ^ string_of_z e ^ " " ^
+        (if n = 0 then "- -" else it (List.hd items) ^ " " ^ it (List.nth items (n - 1))) in
+  string_of_int (List.length (render f)) ^ " " ^ a ^ " " ^ l
+let pnum_out h =
+  match parse_number (zl_of_bytes h) with
+  | Ok None -> "None"
+  | Ok (Some (n, r)) -> string_of_z n ^ " " ^ string_of_int (List.length r)
+  | IntOvf -> "IntOvf"
+  | _ -> "!ERR pnum"
 let handle = function
+  | ["pnum"; h] -> pnum_out (if h = "-" then "" else h)
+  | ["dec"; n] -> hex_of_zbytes (decimal (z_of_string n))
+  | ["specq"; "P"; body; size; fields; isz] -> specq_out (FPlain (toks_of body)) size fields isz
   | ["check"; fx; h; size; fields; isz] ->
       string_of_res (check (fx_of fx) (zl_of_bytes h) (ti_of size fields) (z_of_string isz))
   | ["spec"; "P"; body; size; fields; isz] -> spec_out (FPlain (toks_of body)) size fields isz
